@@ -148,7 +148,11 @@ def check_protocols_ports(arg):
     req, platform, protocol_nr = arg[:3]
     fails = []
     want = request_set(req)
-    template = "permit tcp any eq 1024 any eq 8080"
+    shape = arg[3] if isinstance(arg[3], str) else "both"
+    template, want_ports = {"both": ("permit tcp any eq 1024 any eq 8080", (frozenset([1024]), frozenset([8080]))),
+                            "src": ("permit tcp any eq 1024 any", (frozenset([1024]), None)),
+                            "dst": ("permit tcp any any eq 8080", (None, frozenset([8080]))),
+                            "src-range": ("permit tcp any range 1024 1030 any", (frozenset(range(1024, 1031)), None))}[shape]
     inputs = dict(request=req, platform=platform, protocol_nr=protocol_nr, template=template)
     try:
         lines = cisco_acl.range_protocols(protocols=req, line=template, platform=platform, protocol_nr=protocol_nr)
@@ -162,7 +166,15 @@ def check_protocols_ports(arg):
             fails.append(dict(key="bounded/range_protocols:syntax", what=f"{l!r}: {ex}", inputs=inputs))
             continue
         got |= r.sem.proto if r.sem.proto is not None else {0}
-        if r.sem.proto is not None and r.sem.proto <= {6, 17} and (r.sem.sports, r.sem.dports) != (frozenset([1024]), frozenset([8080])):
+        toks_ = l.split()
+        ptok_ = toks_[2] if toks_ and toks_[0].isdigit() else toks_[1]
+        if any(t in ("eq", "neq", "gt", "lt", "range") for t in toks_) and ptok_ not in ("tcp", "udp"):
+            # device syntax: a port operator is only accepted after the protocol keyword tcp / udp (a protocol number takes no ports)
+            fails.append(dict(key="bounded/range_protocols:platform-syntax", what=f"request {req!r} (protocol_nr={protocol_nr}): {l!r} puts a port operator after the protocol {ptok_!r}; "
+                                                                                  f"ports are only valid after the keyword tcp / udp", inputs=inputs,
+                              cmd=("import sys; sys.path.insert(0, 'props'); import C18\n"
+                                   f"fails, _ = C18.check_protocols({arg!r})\nprint([f['what'] for f in fails]); sys.exit(1 if fails else 0)\n")))
+        if r.sem.proto is not None and r.sem.proto <= {6, 17} and (r.sem.sports, r.sem.dports) != want_ports:
             fails.append(dict(key="bounded/range_protocols:other-field:ports", what=f"request {req!r}: {l!r} lost the port clauses of the template {template!r}",
                               inputs=inputs, cmd=("import sys; sys.path.insert(0, 'props'); import C18\n"
                                                   f"fails, _ = C18.check_protocols({arg!r})\nprint([f['what'] for f in fails]); sys.exit(1 if fails else 0)\n")))
@@ -229,6 +241,7 @@ def main(chk):
     preqs = ["0", "1", "6", "17", "0-3", "1,6,17", "250-255", "1-3,6,47-51", "255", "41,89", "0-255"]
     cases = [(r, p, nr) for r in preqs for p in ("ios", "nxos") for nr in (False, True)]
     cases += [(r, p, nr, True) for r in ["6", "17", "1,6", "1-6", "2-3,17", "6,17,47", "1,6,17", "6,1", "1-17"] for p in ("ios", "nxos") for nr in (False, True)]
+    cases += [(r, p, nr, shp) for r in ["6", "17", "6,17", "1,6,17"] for p in ("ios", "nxos") for nr in (False, True) for shp in ("src", "dst", "src-range")]
     res = pmap(check_protocols, cases)
     viol = 0
     for fails, _ in res:
